@@ -20,6 +20,9 @@ def check(ctx):
 
 
 def s1_membership(ctx):
+    from ..lib import one_shot_state
+    for cn_ in ('DynamicUniverse', 'StaticUniverse'):
+        ctx.sub(one_shot_state, 'C19.S1', cn_)      # the universe answers every query, not only the first
     # ---- S1 membership filter
     qn = 'DynamicUniverse.get_assets'
     fn = ctx.fn(qn)
